@@ -12,11 +12,17 @@ from vp.snapshot import inv_forest
 ALT_NAME = 'rp-alt'
 
 
+def PU(i):
+    """Pool uuids of the sequential part contain hex LETTERS, so that the same uuid also has an
+    upper-case spelling (which the body schema accepts and which names no provider)."""
+    return 'abcdef00-0000-4000-8000-%012d' % i
+
+
 class Spec(object):
     def __init__(self, n):
         self.n = n
-        self.pool = [P(i) for i in range(1, n + 1)]
-        self.idx = {P(i): i for i in range(1, n + 1)}
+        self.pool = [PU(i) for i in range(1, n + 1)]
+        self.idx = {PU(i): i for i in range(1, n + 1)}
 
     def starts(self):
         return [('empty', [])]
@@ -63,6 +69,13 @@ class Spec(object):
                         out.append(R('PUT', '/resource_providers/' + x,
                                      {'name': nm, 'parent_provider_uuid': par}, mv=mv,
                                      tag='PUT-parent@' + mv))
+                # the same uuids spelled in upper case: however the look-up treats them, the
+                # loop and existence checks must see what the look-up saw
+                kids = [u for u in exist if d.providers[u]['parent'] == x]
+                for par, kind in [(x, 'self')] + [(k, 'child') for k in kids[:1]]:
+                    out.append(R('PUT', '/resource_providers/' + x,
+                                 {'name': nm, 'parent_provider_uuid': par.upper()}, mv='1.37',
+                                 tag='PUT-parent-uppercase-%s@1.37' % kind))
                 if i == 1:
                     for new in (pname(1), ALT_NAME, pname(2)):
                         if new != nm:
